@@ -61,6 +61,46 @@ fn mk_img(container: &str, kind: DiskKind) -> Option<Box<dyn DiskImage>> {
     })
 }
 
+/// the volume of a history: the concrete a2kit object (so that it can be formatted again), or - after a reload from
+/// bytes - the boxed trait object.  Derefs to `dyn DiskFS`.
+pub enum Vol { Dos(dos3x::Disk), Prodos(prodos::Disk), Pascal(pascal::Disk), Cpm(cpm::Disk), Fat(fat::Disk), Dyn(Box<dyn DiskFS>) }
+impl std::ops::Deref for Vol {
+    type Target = dyn DiskFS;
+    fn deref(&self) -> &(dyn DiskFS + 'static) { match self { Vol::Dos(d) => d, Vol::Prodos(d) => d, Vol::Pascal(d) => d, Vol::Cpm(d) => d, Vol::Fat(d) => d, Vol::Dyn(d) => d.as_ref() } }
+}
+impl std::ops::DerefMut for Vol {
+    fn deref_mut(&mut self) -> &mut (dyn DiskFS + 'static) { match self { Vol::Dos(d) => d, Vol::Prodos(d) => d, Vol::Pascal(d) => d, Vol::Cpm(d) => d, Vol::Fat(d) => d, Vol::Dyn(d) => d.as_mut() } }
+}
+impl Vol {
+    /// format the same object again, with the parameters `make_vol` uses (None: a re-loaded object, no concrete type)
+    pub fn reformat(&mut self, cfg: &VolCfg) -> Option<Result<(), String>> {
+        let e = |e: Box<dyn std::error::Error>| e.to_string();
+        Some(match self {
+            Vol::Dos(d) => if cfg.fs == Fs::Dos32 { d.init32(254, false).map_err(e) } else { d.init33(254, false).map_err(e) },
+            Vol::Prodos(d) => { let floppy = matches!(cfg.kind, DiskKind::D35(_) | DiskKind::D525(_) | DiskKind::D8(_)); d.format("VERIF", floppy, None).map_err(e) }
+            Vol::Pascal(d) => d.format("VERIF", 0xee, None).map_err(e),
+            Vol::Cpm(d) => if cfg.fs == Fs::Cpm3 { let t = chrono::NaiveDate::from_ymd_opt(2000, 1, 1).unwrap().and_hms_opt(0, 0, 0).unwrap(); d.format("VERIF", Some(t)).map_err(e) } else { d.format("", None).map_err(e) },
+            Vol::Fat(d) => d.format("VERIF", None).map_err(e),
+            Vol::Dyn(_) => return None,
+        })
+    }
+}
+
+pub fn make_vol(cfg: &VolCfg) -> Result<Vol, String> {
+    let img = mk_img(cfg.container, cfg.kind).ok_or("no such container/kind")?;
+    let e = |e: Box<dyn std::error::Error>| e.to_string();
+    let mut v = match cfg.fs {
+        Fs::Dos33 | Fs::Dos32 => Vol::Dos(dos3x::Disk::from_img(img).map_err(e)?),
+        Fs::Prodos => Vol::Prodos(prodos::Disk::from_img(img).map_err(e)?),
+        Fs::Pascal => Vol::Pascal(pascal::Disk::from_img(img).map_err(e)?),
+        Fs::Cpm2 => Vol::Cpm(cpm::Disk::from_img(img, dpb::DiskParameterBlock::create(&cfg.kind), [2, 2, 3]).map_err(e)?),
+        Fs::Cpm3 => Vol::Cpm(cpm::Disk::from_img(img, dpb::DiskParameterBlock::create(&cfg.kind), [3, 1, 0]).map_err(e)?),
+        Fs::Fat => { let boot = bpb::BootSector::create(&cfg.kind).map_err(e)?; Vol::Fat(fat::Disk::from_img(img, Some(boot)).map_err(e)?) }
+    };
+    v.reformat(cfg).unwrap()?;
+    Ok(v)
+}
+
 pub fn make_volume(cfg: &VolCfg) -> Result<Box<dyn DiskFS>, String> {
     let img = mk_img(cfg.container, cfg.kind).ok_or("no such container/kind")?;
     let e = |e: Box<dyn std::error::Error>| e.to_string();
@@ -196,7 +236,7 @@ impl OpRecord {
 
 pub struct World {
     pub cfg: VolCfg,
-    pub disk: Box<dyn DiskFS>,
+    pub disk: Vol,
     pub files: BTreeMap<String, RefFile>,
     pub dirs: BTreeSet<String>,
     pub chunk_len: usize,
@@ -297,6 +337,10 @@ impl World {
             Fs::Pascal => {
                 if g.fs_type != r.ftype { return Some(format!("type path={}", path)); }
                 if g.get_eof() != r.eof { return Some(format!("eof path={} stored={} got={}", path, r.eof, g.get_eof())); }
+            }
+            Fs::Cpm2 | Fs::Cpm3 if r.access.len() == 11 && { let m = |a: &Vec<u8>| { let mut v = a.clone(); if v.len() == 11 { v[10] &= 0x7f; } v }; m(&g.access) != m(&r.access) || g.fs_type.len() != 3 || (0..3).any(|i| (g.fs_type[i] ^ r.access[8 + i]) & if i == 2 { 0x7f } else { 0xff } != 0) } => {
+                // the 8+3 name bytes with the attribute bits (F1-F4, R/O, SYS) in their high bits; the archive bit is the system's
+                return Some(format!("access path={} stored={} got={} type={}", path, hx(&r.access), hx(&g.access), hx(&g.fs_type)));
             }
             Fs::Cpm2 => { let want = (r.eof + 127) / 128 * 128; if g.get_eof() != want { return Some(format!("eof path={} stored={} want={} got={}", path, r.eof, want, g.get_eof())); } }
             Fs::Cpm3 => { if g.get_eof() != r.eof { return Some(format!("eof path={} stored={} got={}", path, r.eof, g.get_eof())); } }
@@ -570,6 +614,32 @@ fn post_step(w: &mut World, vd: &mut Verdicts, drv: &mut Option<&mut Drv>, tie: 
     }
 }
 
+/// use a fresh volume (two dense files that together reach high block numbers, a small one, the middle one deleted), then
+/// format the same object again; Err = the re-formatted volume is not what a first format gives (free count, listing)
+fn first_life_and_reformat(disk: &mut Vol, cfg: &VolCfg) -> Result<(), String> {
+    let e = |e: Box<dyn std::error::Error>| e.to_string();
+    let free0 = disk.stat().map_err(e)?.free_blocks;
+    let ext = if cfg.fs.is_cpm() || cfg.fs == Fs::Fat { ".BIN" } else { "" };
+    for (k, share) in [(0usize, 40usize), (1, 30), (2, 1)] {
+        let name = format!("LIFE{}{}", k, ext);
+        let mut f = disk.new_fimg(None, true, &name).map_err(e)?;
+        let budget = (free0 * share / 100).max(2);
+        let n = (1..=budget).rev().find(|n| dense_units(cfg.fs, *n) <= budget).unwrap_or(1);
+        for i in 0..n { f.chunks.insert(i, vec![0xA5u8 ^ (i as u8) ^ (k as u8); f.chunk_len]); }
+        if !cfg.fs.is_dos() { let l = f.chunk_len; f.set_eof(n * l); }
+        let (ft, aux, acc) = ftype_for(cfg.fs, 1, &name);
+        if !ft.is_empty() { f.fs_type = ft; } if !aux.is_empty() { f.aux = aux; } if let Some(a) = acc { f.access = a; }
+        disk.put(&f).map_err(|x| format!("first life: put {} refused: {}", name, x))?;
+    }
+    disk.delete(&format!("LIFE1{}", ext)).map_err(|x| format!("first life: delete refused: {}", x))?;
+    disk.reformat(cfg).ok_or("no concrete object")??;
+    let st = disk.stat().map_err(e)?;
+    if st.free_blocks != free0 { return Err(format!("free count after formatting the used object is {}, a first format gives {}", st.free_blocks, free0)); }
+    let tree = disk.tree(false, None).map_err(e)?;
+    if tree.contains("LIFE") { return Err("files of the first life are listed after the format".to_string()); }
+    Ok(())
+}
+
 /// one history in progress: the volume and its reference state, the verdict sink, the Lean tie.  Every operation —
 /// generated or scripted — goes through `step`: real call, API oracles, mirror of the saved image into the driver,
 /// per-step refinement check, byte-exact concrete-model ties.
@@ -590,10 +660,10 @@ pub struct Hist<'a> {
 }
 
 impl<'a> Hist<'a> {
-    fn open(out: &'a mut Out, focus: Focus, idx: usize, cfg: &VolCfg, mut drv: Option<&'a mut Drv>, forced: Vec<Op>) -> Option<Hist<'a>> {
+    fn open(out: &'a mut Out, focus: Focus, idx: usize, cfg: &VolCfg, mut drv: Option<&'a mut Drv>, forced: Vec<Op>, second_life: bool) -> Option<Hist<'a>> {
         let cfgid = format!("{}/{}/{}", cfg.fs.id(), cfg.container, cfg.kind_name);
         out.count(&format!("cfg:{}", cfgid));
-        let disk = match guarded(|| make_volume(cfg)) {
+        let disk = match guarded(|| make_vol(cfg)) {
             Ok(Ok(d)) => d,
             Ok(Err(e)) => { out.count(&format!("mkvol-error:{}:{}", cfgid, e)); return None; }
             Err(p) => { let mut vd = Verdicts { out, focus, idx, cfgid: cfgid.clone() }; vd.panic(&p, "format", &[]); return None; }
@@ -601,6 +671,10 @@ impl<'a> Hist<'a> {
         let mut w = World { cfg: cfg.clone(), disk, files: BTreeMap::new(), dirs: BTreeSet::new(), chunk_len: 0, hist: Vec::new(), lean_op: None, last_op: None, pas_op: None, dos_op: None, forced: Vec::new(), locked_dirs: BTreeSet::new(), last_reading: None, leak_tainted: false };
         w.forced = forced;
         w.chunk_len = match guarded(|| w.disk.new_fimg(None, false, if cfg.fs.is_cpm() || cfg.fs == Fs::Fat { "A.TXT" } else { "A" })) { Ok(Ok(f)) => f.chunk_len, _ => 512 };
+        // second life: the object has been used (files up to high block numbers, one deleted) and is formatted again through
+        // the same object; the history proper - and every tie - starts from there, exactly as from a first format
+        let mut relife: Option<Result<(), String>> = None;
+        if second_life { relife = Some(guarded(|| first_life_and_reformat(&mut w.disk, cfg)).unwrap_or_else(|p| Err(format!("PANIC {}", p)))); }
         let mut tie = LeanTie { prev: Vec::new(), opened: false };
         let use_lean = drv.is_some() && (cfg.flat || cfg.fs.is_cpm()) && lean_supported(cfg.fs);
         // byte-exact tie of the concrete Pascal model (Lean `Model/Fs/Pascal.lean`): Pascal on a flat PO image only
@@ -609,6 +683,15 @@ impl<'a> Hist<'a> {
         let use_dos = use_lean && cfg.fs.is_dos() && cfg.flat && matches!(cfg.container, "do" | "d13") && std::env::var("A2V_NO_FSD").is_err();
         let canon: Vec<u8> = cfgid.as_bytes().to_vec();
         let mut vd = Verdicts { out, focus, idx, cfgid: cfgid.clone() };
+        if let Some(r) = relife {
+            w.hist.push(format!("first life (files up to high blocks, one deleted), format of the same object => {}", match &r { Ok(()) => "ok".to_string(), Err(e) => format!("err:{}", e.chars().take(60).collect::<String>()) }));
+            let hist = w.hist.clone();
+            match r {
+                Ok(()) => { for f in [Focus::C03, Focus::C04, Focus::C05] { vd.v(f, true, "reformat-yields-fresh-volume", "", &[]); } vd.out.count("second-life"); }
+                Err(e) if e.starts_with("PANIC") => { vd.panic(&e[6..], "format", &hist); return None; }
+                Err(e) => { for f in [Focus::C03, Focus::C04, Focus::C05] { vd.v(f, false, "reformat-yields-fresh-volume", &e, &hist); } return None; }
+            }
+        }
         if use_lean {
             if let Some(d) = drv.as_deref_mut() {
                 if let Some(e) = lean_sync(d, &mut tie, &mut w) { vd.out.count(&format!("lean-sync-error:{}", e)); }
@@ -685,8 +768,11 @@ fn extra_op(w: &World, aux: &mut Rng, focus: Focus) -> Option<Op> {
 }
 
 fn one_history(ctx: &mut Ctx, focus: Focus, idx: usize, cfg: &VolCfg, steps: usize, rng: &mut Rng, drv: Option<&mut Drv>, forced: Vec<Op>) {
-    let mut h = match Hist::open(&mut ctx.out, focus, idx, cfg, drv, forced) { Some(h) => h, None => return };
     let mut aux = Rng::new(rng.0 ^ 0x5CE7A410_0000_0000u64 ^ idx as u64);
+    // one history in ten starts on an object that has been used and formatted again
+    // (not DOS 3.x: INIT leaves the data sectors as they are, and the byte-exact DOS model starts from a blank image)
+    let second_life = !slow_cfg(cfg) && !cfg.fs.is_dos() && aux.chance(10);
+    let mut h = match Hist::open(&mut ctx.out, focus, idx, cfg, drv, forced, second_life) { Some(h) => h, None => return };
     // CP/M 3 scenario: the same 8+3 name in two user areas, both password protected, then one of them unprotected
     // (entries of different user areas must never be confused; protection is per file)
     if cfg.fs == Fs::Cpm3 && rng.chance(60) {
@@ -825,11 +911,11 @@ fn one_history(ctx: &mut Ctx, focus: Focus, idx: usize, cfg: &VolCfg, steps: usi
 /// case indices of the scripted scenarios (the random histories keep 0..n, so their indices do not move)
 pub const SCENARIO_IDX0: usize = 1_000_000;
 
-struct Scenario { name: &'static str, fs: Fs, container: &'static str, kind_name: &'static str, foci: &'static [Focus], thorough_only: bool, script: fn(&mut Hist, &mut Rng) }
+struct Scenario { name: &'static str, fs: Fs, container: &'static str, kind_name: &'static str, foci: &'static [Focus], thorough_only: bool, second_life: bool, script: fn(&mut Hist, &mut Rng) }
 
 fn scenarios() -> Vec<Scenario> {
     use Focus::*;
-    let sc = |name, fs, container, kind_name, foci, script| Scenario { name, fs, container, kind_name, foci, thorough_only: false, script };
+    let sc = |name, fs, container, kind_name, foci, script| Scenario { name, fs, container, kind_name, foci, thorough_only: false, second_life: false, script };
     vec![
         // FAT sub-directory of three clusters (512-byte clusters: the 31st file), operations on entries of every cluster
         sc("fat-subdir-3-clusters", Fs::Fat, "img", "ibm-ssdd-9", &[C01, C02, C04, C05, C19], sc_fat_subdir),
@@ -840,7 +926,7 @@ fn scenarios() -> Vec<Scenario> {
         sc("dos32-low-tracks", Fs::Dos32, "d13", "a2-525-13", &[C03, C04], sc_dos_low_tracks),
         // ProDOS volume with a two-block bitmap: allocation beyond block 4096, save / reload in mid-history
         sc("prodos-bitmap-2-blocks", Fs::Prodos, "po", "a2-hd-4600", &[C01, C02, C06], sc_prodos_bitmap2),
-        Scenario { name: "prodos-bitmap-16-blocks", fs: Fs::Prodos, container: "po", kind_name: "a2-hd-max", foci: &[C02, C06], thorough_only: true, script: sc_prodos_bitmap2 },
+        Scenario { name: "prodos-bitmap-16-blocks", fs: Fs::Prodos, container: "po", kind_name: "a2-hd-max", foci: &[C02, C06], thorough_only: true, second_life: false, script: sc_prodos_bitmap2 },
         // ProDOS sparse tree files at exact fit and one block short
         sc("prodos-sparse-exact-fit", Fs::Prodos, "po", "a2-525-16", &[C01, C02, C03, C04], sc_prodos_sparse_fit),
         // ProDOS sub-directory of four blocks, operations on entries of every block, delete of the grown directory
@@ -869,6 +955,9 @@ fn scenarios() -> Vec<Scenario> {
         // FAT sub-directory exactly full, then growth without a data cluster (zero-length file; put refused for lack of
         // space), save / reload right after it
         sc("fat-full-directory-grows", Fs::Fat, "img", "ibm-ssdd-9", &[C05, C06], sc_fat_full_dir_grows),
+        // a used object formatted again, then filled exactly (allocator state must not survive `format`)
+        Scenario { name: "cpm-second-life-exact-fill", fs: Fs::Cpm2, container: "do", kind_name: "a2-525-16", foci: &[C04], thorough_only: false, second_life: true, script: sc_exact_fill },
+        Scenario { name: "fat-second-life-exact-fill", fs: Fs::Fat, container: "img", kind_name: "ibm-ssdd-9", foci: &[C03], thorough_only: false, second_life: true, script: sc_exact_fill },
         // (append new scenarios here: the position in this list is the case index)
     ]
 }
@@ -892,7 +981,7 @@ fn run_scenarios(ctx: &mut Ctx, focus: Focus, drv: &mut Option<Drv>) {
         let cfg = match scenario_cfg(sc) { Some(c) => c, None => { ctx.out.count(&format!("scenario-no-cfg:{}", sc.name)); continue; } };
         let mut rng = Rng::new(ctx.seed ^ 0x5C3A_A105u64 ^ ((k as u64) << 20));
         let t0 = std::time::Instant::now();
-        let mut h = match Hist::open(&mut ctx.out, focus, idx, &cfg, drv.as_mut(), Vec::new()) { Some(h) => h, None => continue };
+        let mut h = match Hist::open(&mut ctx.out, focus, idx, &cfg, drv.as_mut(), Vec::new(), sc.second_life) { Some(h) => h, None => continue };
         h.scenario = sc.name;
         (sc.script)(&mut h, &mut rng);
         let steps = h.w.hist.len() as u64;
@@ -980,7 +1069,7 @@ impl<'a> Hist<'a> {
         for f in [Focus::C03, Focus::C04, Focus::C06] { self.vd.v(f, same, "fresh-volume-bitmap-on-disk", &format!("the saved image of the freshly formatted volume does not carry the prescribed bitmap (first differing bitmap block: {:?})", first_bad), &hist); }
         if first == 6 { bytes[first * 512..(first + nb) * 512].copy_from_slice(&want); }
         match guarded(|| a2kit::create_fs_from_bytestream(&bytes, Some("po")).map_err(|e| e.to_string())) {
-            Ok(Ok(d2)) => { self.w.disk = d2; self.mark("formatted-volume-loaded"); }
+            Ok(Ok(d2)) => { self.w.disk = Vol::Dyn(d2); self.mark("formatted-volume-loaded"); }
             _ => { self.vd.out.count("scenario-load-failed"); self.dead = true; }
         }
     }
@@ -1102,7 +1191,8 @@ fn sc_prodos_full_bitmap_block(h: &mut Hist, rng: &mut Rng) {
     if h.reload(rng, true) { h.mark("reloaded-in-mid-history"); }
     h.mkdir(rng, "D");
     h.put(rng, "D/E", 2);
-    h.del(rng, "A");
+    // (A owns the block right behind the bitmap: it stays to the end, through every save and reload)
+    h.del(rng, "C");
     h.save(rng);
     h.put(rng, "F", 258);
     h.reload(rng, false);
@@ -1124,6 +1214,8 @@ fn sc_no_first_chunk(h: &mut Hist, rng: &mut Rng) {
         if h.put_idx(rng, &name, idx, 1 + (k * 61) % 128) { h.mark("stored-without-first-chunk"); }
         if k % 2 == 0 { h.rename(rng, &name, &format!("R{}{}", k, ext)); }
     }
+    // attribute changes on files whose first directory-entry-sized group of chunks is a hole
+    for k in [3usize, 5, 7] { let n = format!("H{}{}", k, ext); h.toggle_lock(rng, &n); h.retype(rng, &n, 0); h.toggle_lock(rng, &n); }
     h.save(rng);
     let names: Vec<String> = h.w.files.keys().filter(|n| !n.starts_with("KEEP")).cloned().collect();
     for n in names { h.del(rng, &n); }
@@ -1300,6 +1392,18 @@ fn sc_fat_full_dir_grows(h: &mut Hist, rng: &mut Rng) {
     }
 }
 
+fn sc_exact_fill(h: &mut Hist, rng: &mut Rng) {
+    let ext = if h.w.fs().is_cpm() || h.w.fs() == Fs::Fat { ".BIN" } else { "" };
+    let free = h.free_now();
+    if free == usize::MAX || free < 8 { return; }
+    h.put(rng, &format!("A{}", ext), free / 3);
+    h.put(rng, &format!("B{}", ext), free / 4);
+    if h.fill_to(rng, 0, "FILL") { h.mark("filled-to-zero-in-second-life"); }
+    h.put_len(rng, &format!("NOROOM{}", ext), 1, 5);
+    h.del(rng, &format!("A{}", ext));
+    if h.fill_to(rng, 0, "FILL") { h.mark("refilled-to-zero"); }
+}
+
 fn sc_pascal_gaps(h: &mut Hist, rng: &mut Rng) {
     h.put(rng, "A", 60); h.put(rng, "B", 60); h.put(rng, "C", 60);
     let rest = h.free_now();
@@ -1415,6 +1519,13 @@ fn build_fimg(w: &mut World, path: &str, nchunks: usize, holes: bool, last_len: 
     if !ft.is_empty() { fimg.fs_type = ft; }
     if !aux.is_empty() { fimg.aux = aux; }
     if let Some(a) = acc { fimg.access = a; }
+    // CP/M: attribute bits live in the high bits of the 8+3 name bytes (F1, F3, SYS here; R/O is what `lock` sets)
+    if fs.is_cpm() && fimg.access.len() == 11 {
+        if ftype_sel & 1 != 0 { fimg.access[9] |= 0x80; }
+        if ftype_sel & 2 != 0 { fimg.access[0] |= 0x80; }
+        if ftype_sel & 4 != 0 { fimg.access[2] |= 0x80; }
+        fimg.fs_type = fimg.access[8..11].to_vec();
+    }
     for (i, d) in &chunks { fimg.chunks.insert(*i, d.clone()); }
     if !fs.is_dos() { fimg.set_eof(eof); }
     let r = RefFile { chunks, eof, ftype: fimg.fs_type.clone(), aux: fimg.aux.clone(), access: fimg.access.clone(), locked: false };
@@ -1600,7 +1711,7 @@ fn apply_op(w: &mut World, op: Op, rng: &mut Rng, free: usize, vd: &mut Verdicts
                     if dup && target != cp { vd.v(Focus::C05, false, "rename-onto-existing-refused", &format!("{} -> {} succeeded", cp, target), &w.hist.clone()); return format!("ABORT {}", d); }
                     if locked { vd.v(Focus::C19, false, "locked-refuses-rename", &format!("locked file {} was renamed", cp), &w.hist.clone()); }
                     let mut r = w.files.remove(&cp).unwrap();
-                    if fs.is_cpm() || fs == Fs::Fat { r.ftype = vec![]; }
+                    if fs.is_cpm() || fs == Fs::Fat { r.ftype = vec![]; r.access = vec![]; }
                     w.files.insert(target, r);
                 }
                 Ok(Err(_)) => { if locked { vd.v(Focus::C19, true, "locked-refuses-rename", "", &[]); } }
@@ -1628,7 +1739,7 @@ fn apply_op(w: &mut World, op: Op, rng: &mut Rng, free: usize, vd: &mut Verdicts
                     let target = if fs.is_cpm() { let user = if a.contains(':') { a.split(':').next().unwrap().to_string() } else { "0".to_string() }; canon_path(fs, &format!("{}:{}", user, nb_arg)) } else { match parent_of(&a) { Some(par) => format!("{}/{}", par, nb), None => nb.clone() } };
                     if w.files.contains_key(&target) { vd.v(Focus::C05, false, "rename-onto-existing-refused", &format!("{} -> {} succeeded", a, target), &w.hist.clone()); return format!("ABORT {}", d); }
                     let mut r = w.files.remove(&a).unwrap();
-                    if fs.is_cpm() || fs == Fs::Fat { r.ftype = vec![]; }
+                    if fs.is_cpm() || fs == Fs::Fat { r.ftype = vec![]; r.access = vec![]; }
                     w.files.insert(target, r);
                 }
                 Ok(Err(_)) => { if same_dir { vd.v(Focus::C05, true, "rename-onto-existing-refused", "", &[]); } }
@@ -1657,6 +1768,7 @@ fn apply_op(w: &mut World, op: Op, rng: &mut Rng, free: usize, vd: &mut Verdicts
                 Err(p) => { vd.panic(&p, "retype", &w.hist.clone()); return format!("ABORT {}", d); }
                 Ok(Ok(_)) => {
                     // rebase type/aux from what the volume now reports; content must be untouched (checked by bystander/all-files oracles)
+                    if fs.is_cpm() { let r = w.files.get_mut(&cp).unwrap(); if r.access.len() == 11 { match typ.as_str() { "sys" => r.access[9] |= 0x80, "dir" => r.access[9] &= 0x7f, _ => {} } } }
                     if let Ok(Ok(g)) = w.get(&cp) { let r = w.files.get_mut(&cp).unwrap(); r.ftype = g.fs_type.clone(); r.aux = g.aux.clone(); if fs.is_dos() && locked { /* retype clears lock bit in a2kit's DOS: observed, see design */ r.locked = g.fs_type.first().map(|b| b & 0x80 != 0).unwrap_or(false); } }
                 }
                 Ok(Err(_)) => {}
@@ -1835,8 +1947,10 @@ fn apply_op(w: &mut World, op: Op, rng: &mut Rng, free: usize, vd: &mut Verdicts
             w.hist.push(d.clone());
             w.lean_op = Some("other ok".to_string());
             if let Err(p) = res { vd.panic(&p, "to_bytes", &w.hist.clone()); return format!("ABORT {}", d); }
-            let same = before == after;
-            let detail = if same { String::new() } else { format!("free {:?} -> {:?}, tree {}", before.0, after.0, if before.1 == after.1 { "unchanged" } else { "changed" }) };
+            let mut same = before == after;
+            let mut detail = if same { String::new() } else { format!("free {:?} -> {:?}, tree {}", before.0, after.0, if before.1 == after.1 { "unchanged" } else { "changed" }) };
+            // every file still reads back from the live object (C06 focus; under C01 / C02 the step oracles read them anyway)
+            if same && vd.focus == Focus::C06 { if let Some(diff) = first_file_diff(w, None) { same = false; detail = format!("after the save the live volume returns: {}", diff); } }
             for f in [Focus::C06, Focus::C04] { vd.v(f, same, "save-keeps-live-volume", &detail, &w.hist.clone()); }
             vd.out.count("op:save");
             d
@@ -1912,6 +2026,7 @@ fn toggle_lock(w: &mut World, cp: String, vd: &mut Verdicts, rng: &mut Rng) -> S
         Err(p) => { vd.panic(&p, "lock", &w.hist.clone()); return format!("ABORT {}", d); }
         Ok(Ok(_)) => {
             w.files.get_mut(&cp).unwrap().locked = !was;
+            if w.fs().is_cpm() { let r = w.files.get_mut(&cp).unwrap(); if r.access.len() == 11 { if was { r.access[8] &= 0x7f; } else { r.access[8] |= 0x80; } } }
             // reading is unaffected
             let r = w.files[&cp].clone();
             match w.get(&cp) {
@@ -1995,6 +2110,19 @@ fn check_listing(w: &mut World, vd: &mut Verdicts) {
     }
 }
 
+/// first file of the reference map that does not read back (from the live object, or from `other`)
+fn first_file_diff(w: &mut World, mut other: Option<&mut Box<dyn DiskFS>>) -> Option<String> {
+    for (p, r) in w.files.clone() {
+        let res = match other.as_mut() { Some(d2) => guarded(|| d2.get(&p).map_err(|e| e.to_string())), None => w.get(&p) };
+        match res {
+            Ok(Ok(g)) => if let Some(dd) = w.compare(&p, &r, &g) { return Some(dd); },
+            Ok(Err(e)) => return Some(format!("get {} failed: {}", p, e)),
+            Err(pn) => return Some(format!("get {} panicked at {}", p, pn)),
+        }
+    }
+    None
+}
+
 /// C06 in the middle of a history: save, load the bytes again and go on with the re-loaded object.  What is compared
 /// is what `check_reload` compares at the end (file system, free count, block count, tree with metadata, chunk length);
 /// the files themselves are compared by the oracles of the following steps, which now run on the re-loaded volume.
@@ -2036,6 +2164,7 @@ fn reload_op(w: &mut World, with_ext: bool, vd: &mut Verdicts) -> String {
                 let name = if w.fs().is_cpm() || w.fs() == Fs::Fat { "A.TXT" } else { "A" };
                 if let Ok(Ok(f)) = guarded(|| d2.new_fimg(None, false, name).map_err(|e| e.to_string())) { if f.chunk_len != w.chunk_len { diff = Some(format!("chunk length {} vs {} after reload (different disk parameters chosen)", f.chunk_len, w.chunk_len)); } }
             }
+            if diff.is_none() && vd.focus == Focus::C06 { diff = first_file_diff(w, Some(&mut d2)).map(|x| format!("after reload: {}", x)); }
             fresh = Some(d2);
         }
     }
@@ -2045,7 +2174,7 @@ fn reload_op(w: &mut World, with_ext: bool, vd: &mut Verdicts) -> String {
         None => {
             // a2kit loads every CP/M volume as CP/M 3 (exact lengths in the directory from then on): a volume made as CP/M 2.2
             // is compared, but the history goes on with the CP/M 2.2 object so that one length rule holds for all of it
-            if w.fs() == Fs::Cpm2 { vd.out.count("op:reload-compared-only"); } else { w.disk = fresh.unwrap(); vd.out.count("op:reload"); }
+            if w.fs() == Fs::Cpm2 { vd.out.count("op:reload-compared-only"); } else { w.disk = Vol::Dyn(fresh.unwrap()); vd.out.count("op:reload"); }
             vd.v(Focus::C06, true, &oracle, "", &[]);
         }
         Some(dd) => { vd.v(Focus::C06, false, &oracle, &format!("mid-history: {}", dd), &w.hist.clone()); vd.out.count("op:reload-differs"); }
